@@ -7,6 +7,10 @@ descriptor reserved / key / padding / column data.  Faults:
   structural : every byte of header+descriptors+keys x {^0x01, ^0x80, =0x00, =0xFF}
   arith      : arithmetic-aware multi-byte edits of num_items, file_size, key_start/len, array_start/len
   data       : random 1-8 byte edits inside column data and padding
+  typed      : every numeric array item (sequence_length, coordinates, times, ids, flags, offsets, index) gets its first /
+               middle / last element replaced by the special values of its type (NaN with either sign and several payloads,
+               +-inf, 0, -0.0, negative, denormal, largest double; -1, -2, n, n+1, INT_MAX, INT_MIN; 0 / all-ones for
+               unsigned), through every loader
 Oracle: prefix -> must raise (EOFError only for the empty prefix); structural -> must raise; data -> raises, or the object
 is well-formed (tskit.load: passes the C02 validity predicate) and dump->load is the identity.
 """
@@ -145,7 +149,7 @@ def _with_file(p, fn):
 
 def cases(tier, seed):
     nfiles = 24 if tier == "quick" else 1500
-    kinds = ["truncate", "structural:1", "structural:128", "structural:zero", "structural:ff", "arith", "data", "stream"]
+    kinds = ["truncate", "structural:1", "structural:128", "structural:zero", "structural:ff", "arith", "data", "stream", "typed"]
     for f in range(nfiles):
         for kind in kinds:
             yield {"gen": "file", "file": f, "kind": kind}
@@ -245,7 +249,13 @@ def well_formed(t, obj, loader):
                 tree.num_edges
         except Exception as e:  # noqa: BLE001
             return f"returned tree sequence not usable: {e!r}"
-    # dump -> load -> dump is the identity on every stored array (compared as file bytes, uuid excluded)
+    # the loaders themselves document a positive genome length (TSK_ERR_BAD_SEQUENCE_LENGTH): an object without one is
+    # not something dump() can have written
+    L = tc.sequence_length
+    if not (L > 0):
+        return f"returned object has sequence_length={L!r}"
+    # dump -> load -> dump is the identity on every stored array (compared as file bytes, uuid excluded), and the
+    # reloaded object compares equal to the returned one
     try:
         b1 = dump_bytes(tc)
         with tempfile.NamedTemporaryFile(dir=SHM) as f:
@@ -255,6 +265,8 @@ def well_formed(t, obj, loader):
         b2 = dump_bytes(again)
         if file_arrays(b1) != file_arrays(b2):
             return "dump->load->dump of the returned object is not the identity"
+        if not tc.equals(again):
+            return "the returned object does not compare equal to its own dump->load round trip"
     except Exception as e:  # noqa: BLE001
         return f"returned object cannot be dumped and reloaded: {e!r}"
     return None
@@ -344,6 +356,8 @@ def run_case(case, ctx):
             do_arith(ctx, t, data, lay, orig_bytes)
         elif kind == "data":
             do_data(ctx, t, data, lay, orig_bytes)
+        elif kind == "typed":
+            do_typed(ctx, t, data, lay)
         else:
             do_stream(ctx, t, data, lay, tc)
     finally:
@@ -499,6 +513,62 @@ def do_data(ctx, t, data, lay, orig_bytes):
             ctx.count("data-accepted-wellformed-checks")
             if why:
                 ctx.violation(f"data-accepted-malformed/{key}", f"{loader}: {desc}: {why}")
+
+
+F64_SPECIAL = [struct.pack("<Q", v) for v in (
+    0x7FF8000000000000, 0xFFF8000000000000, 0x7FF0000000000001, 0x7FF4000000000000, 0xFFFFFFFFFFFFFFFF,  # NaNs
+    0x7FF0000000000000, 0xFFF0000000000000, 0x0000000000000000, 0x8000000000000000,  # +-inf, 0.0, -0.0
+    0x0000000000000001, 0x7FEFFFFFFFFFFFFF, 0xBFF0000000000000, 0x7FF874736B697421,  # denormal, max, -1.0, UNKNOWN_TIME
+)]
+
+
+def typed_values(typ, n_hint):
+    """Replacement byte strings for one element of a kastore array of type code `typ`."""
+    size = TYPE_SIZE[typ]
+    if typ == 9:
+        return F64_SPECIAL
+    if typ == 8:
+        return [struct.pack("<I", v) for v in (0x7FC00000, 0xFFC00000, 0x7F800000, 0xFF800000, 0, 0x80000000)]
+    signed = typ in (0, 2, 4, 6)
+    bits = 8 * size
+    if signed:
+        vals = [-1, -2, 0, n_hint, n_hint + 1, (1 << (bits - 1)) - 1, -(1 << (bits - 1))]
+    else:
+        vals = [0, 1, n_hint, n_hint + 1, (1 << (bits - 1)), (1 << bits) - 1]
+    return [(v % (1 << bits)).to_bytes(size, "little") for v in vals if -(1 << (bits - 1)) <= v < (1 << bits)]
+
+
+def do_typed(ctx, t, data, lay):
+    """Typed special values in every numeric array of the data region.  Same oracle as for random data edits: the
+    loader raises, or what it returns is well formed and round-trips."""
+    loaders = list(LOADERS)
+    k = t.rng.randrange(len(loaders))
+    n_hint = max((it["array_len"] for it in lay.items), default=0)
+    for it in lay.items:
+        typ, n = it["type"], it["array_len"]
+        if typ >= len(TYPE_SIZE) or n == 0 or it["key"] in ("uuid", "format/name"):
+            continue
+        if typ in (0, 1) and not it["key"].endswith(("format/version",)):
+            continue  # int8/uint8 arrays are text or opaque blobs: covered by the random data edits
+        size = TYPE_SIZE[typ]
+        for idx in sorted({0, n // 2, n - 1}):
+            off = it["array_start"] + idx * size
+            for val in typed_values(typ, n_hint):
+                if data[off:off + size] == val:
+                    continue
+                newdata = data[:off] + val + data[off + size:]
+                loader = loaders[k % len(loaders)]
+                k += 1
+                desc = f"element {idx} of {it['key']} ({n} x type {typ}) {data[off:off + size].hex()}->{val.hex()}"
+                ctx.step(f"typed: {desc}; {loader}")
+                st, obj = t.load(newdata, loader)
+                ctx.count("typed-edits")
+                ctx.feature(f"typed:{it['key']}:{st}")
+                if st == "returned":
+                    why = well_formed(t, obj, loader)
+                    ctx.count("data-accepted-wellformed-checks")
+                    if why:
+                        ctx.violation(f"data-accepted-malformed/{it['key']}", f"{loader}: {desc}: {why}")
 
 
 def do_stream(ctx, t, data, lay, tc):
